@@ -1,15 +1,22 @@
 #!/bin/bash
 # seedcheck.sh <patch.diff> <check-id>... : applies a seeded change to /repo, runs the
 # named checks (quick tier) against it and restores /repo. Never commits.
+# SEED_SNAP=<dir>: run the checks from a snapshot copy of /verif in <dir> (so that /verif
+# can be edited meanwhile); the snapshot is created on first use.
 set -u
 PATCH=$(realpath "$1"); shift
+VROOT=/verif
+if [ -n "${SEED_SNAP:-}" ]; then
+  VROOT=$SEED_SNAP
+  if [ ! -d "$VROOT" ]; then mkdir -p "$VROOT"; rsync -a --exclude=/build --exclude=/.git --exclude=/replays /verif/ "$VROOT/"; fi
+fi
 cd /repo || exit 2
 if [ -n "$(git status --porcelain)" ]; then echo "/repo not clean" >&2; exit 2; fi
 git apply "$PATCH" || { echo "patch does not apply" >&2; exit 2; }
 trap 'cd /repo && git checkout -- . && git clean -fdq -- . >/dev/null 2>&1' EXIT
 LOG=$(mktemp)
 for ID in "$@"; do
-  (cd /verif && VERIF_DEADLINE_SECS=${SEED_SECS:-120} ./run.sh $ID quick >$LOG 2>&1); RC=$?
+  (cd $VROOT && VERIF_DEADLINE_SECS=${SEED_SECS:-120} ./run.sh $ID quick >$LOG 2>&1); RC=$?
   echo "=== $ID on $(basename $(dirname $PATCH)): exit=$RC"
   grep -E "^VIOLATION|^KNOWN-FINDING: property|^$ID quick|harness error|total violations|^  [a-zA-Z]" $LOG | cut -c1-400 | head -${SEED_LINES:-10}
 done
